@@ -148,7 +148,7 @@ func (c cfgT) tokens() []string {
 
 func genConfig(prop string, rng *rand.Rand) cfgT {
 	c := cfgT{numBytes: 1 << 28, bytesPerSender: 1 << 24, count: 1 << 20, countPerSender: 1 << 20, batch: 1}
-	c.chunks = core.Pick(rng, []uint32{1, 2, 16, 128})
+	c.chunks = core.Pick(rng, []uint32{1, 2, 16, 128, 3, 7, 100})
 	base, variant := prop, ""
 	if i := strings.IndexByte(prop, ':'); i >= 0 {
 		base, variant = prop[:i], prop[i+1:]
@@ -214,6 +214,7 @@ func genConfig(prop string, rng *rand.Rand) cfgT {
 }
 
 type gen struct {
+	edgeSizes bool // a few transactions have sizes >= 2^31
 	uniform bool // all transactions have the same size (one drop always suffices: no F4)
 	rng   *rand.Rand
 	known map[string]*txSpec // hash determines content
@@ -280,6 +281,10 @@ func (g *gen) newTx(base string) *txSpec {
 	if core.Chance(rng, 1, 25) {
 		t.size = core.Pick(rng, []int64{600, 900})
 	}
+	if g.edgeSizes && core.Chance(rng, 1, 6) {
+		// sizes at the edge of the 32-bit types the thresholds are declared in (Size is an int64, the counters are ints / atomics)
+		t.size = core.Pick(rng, []int64{1 << 31, 1 << 32, 1<<32 + 7, 1 << 40})
+	}
 	if g.uniform {
 		t.size = 100
 	}
@@ -326,7 +331,7 @@ func (comp) Gen(prop string, rng *rand.Rand, tier string) *core.History {
 	h := &core.History{}
 	cfg := genConfig(prop, rng)
 	h.SetConfig(cfg.tokens()...)
-	g := &gen{rng: rng, known: map[string]*txSpec{}, uniform: core.Chance(rng, 3, 5)}
+	g := &gen{rng: rng, known: map[string]*txSpec{}, uniform: core.Chance(rng, 3, 5), edgeSizes: core.Chance(rng, 1, 15)}
 	n := 12 + rng.Intn(40)
 	selW, remW := 22, 12
 	switch base {
